@@ -426,6 +426,18 @@ Definition hist_model (c : World.world * list op) : list value :=
                              {'op': 'build', 'base': base}, {'op': 'value', 'chain': 0, 'pick': 2},
                              {'op': 'flags', 'chain': 0}, {'op': 'value', 'chain': 0, 'pick': 1},
                              {'op': 'build', 'base': base}, {'op': 'value', 'chain': 1, 'pick': 2}]))
+        # the same, with the inputs named in the signature of run (requested before the body of run starts)
+        out.append(dict(classes=[dict(K(0, 'Up', data='memory'), name='up'),
+                                 dict(K(1, 'Mid', meta_inputs=[{'cls': 0}]), name='mid', runargs=['up']),
+                                 dict(K(2, 'Down', meta_inputs=[{'cls': 1}, {'cls': 0}]), name='down', runargs=['mid', 'up'])],
+                        files={}, base=base, context=None,
+                        ops=[{'op': 'build', 'base': base}, {'op': 'value', 'chain': 0, 'pick': 0}, {'op': 'restart'},
+                             {'op': 'build', 'base': base}, {'op': 'value', 'chain': 0, 'pick': 0},
+                             {'op': 'value', 'chain': 0, 'pick': 1}, {'op': 'restart'}, {'op': 'build', 'base': base},
+                             {'op': 'value', 'chain': 0, 'pick': 1}, {'op': 'fail', 'slugs': ['up']},
+                             {'op': 'force_task', 'chain': 0, 'pick': 0, 'delete': False},
+                             {'op': 'value', 'chain': 0, 'pick': 0}, {'op': 'fail', 'slugs': []},
+                             {'op': 'value', 'chain': 0, 'pick': 0}]))
         # a diamond a -> m -> n, a -> x: forcing lists that name a downstream task before its ancestor
         dia = [dict(K(0, 'A'), name='a'), dict(K(1, 'M', meta_inputs=[{'cls': 0}]), name='m'),
                dict(K(2, 'N', meta_inputs=[{'cls': 1}]), name='n'), dict(K(3, 'X', meta_inputs=[{'cls': 0}]), name='x')]
